@@ -64,7 +64,8 @@ static const char *const OP_NAMES[] = {
     "utf8_to_utf16 malformed (substitute)", "utf16_to_utf8 malformed (substitute)", "ostringstream << string", "before/after on local string",
     "starts_with/ends_with/contains",      "char_buffer compare/copy",    "format_latin_1",            "istringstream >> string",
     "literal operators _st/_stbuf/_stfmt (per-thread literals)", "failing decodes and conversions: exception text (per-thread inputs)",
-    "failing format calls: exception text", "wide streams: wostringstream << / wistringstream >> / writef"};
+    "failing format calls: exception text", "wide streams: wostringstream << / wistringstream >> / writef",
+    "accessors of the shared strings and buffer (c_str/data/at/front/back/iterators/view/c_str(substitute)/null comparisons)"};
 
 extern "C" int c20_num_ops() { return (int)(sizeof OP_NAMES / sizeof *OP_NAMES); }
 extern "C" const char *c20_op_name(int op) { return OP_NAMES[op]; }
@@ -301,6 +302,45 @@ extern "C" void c20_run_op(int op, int salt, const C20Shared *sh, char *out, siz
         what([&] { (void)ST::format((const char *)nullptr); });
         what([&] { (void)ST::format("{.1}", salt ? "\xC3\xA9" : "\xE2\x82\xAC"); });
         what([&] { (void)ST::string::from_double(1.5 + salt, 'q'); });
+        break;
+    }
+    case 40: {
+        // every accessor a const object offers, on the objects all threads share
+        const ST::string *ss[3] = {&S, &L, &sh->s_num};
+        for (const ST::string *p : ss) {
+            const ST::string &x = *p;
+            d.raw(x.c_str(), x.size());
+            d.raw(x.c_str("(empty)"), 3);
+            d.raw(reinterpret_cast<const char *>(x.u8_str(u8"(empty)")), 3);
+            d.raw(x.data(), 2);
+            d.num((long long)x.size());
+            d.num(x.empty());
+            d.num(x.at(1) + x[0] + x.front() + x.back());
+            long long acc = 0;
+            for (auto it = x.begin(); it != x.end(); ++it) acc += (unsigned char)*it;
+            for (auto it = x.rbegin(); it != x.rend(); ++it) acc ^= (unsigned char)*it;
+            d.num(acc);
+            std::string_view v = x.view(1, 4);
+            d.raw(v.data(), v.size());
+            d.num((x == ST::null) + (x != ST::null) * 2);
+            d.num((long long)(x.to_std_string().size() + x.to_path().native().size()));
+            d.num(x.to_bool() + x.to_int(salt ? 10 : 16));
+        }
+        const ST::char_buffer &cbuf = sh->cb;
+        d.raw(cbuf.c_str(), 4);
+        d.raw(cbuf.c_str("sub"), 3);
+        d.raw(cbuf.data(), 4);
+        d.num(cbuf.at(2) + cbuf[1] + cbuf.front() + cbuf.back());
+        d.num((long long)cbuf.size() + cbuf.empty() + (cbuf == ST::null));
+        {
+            long long acc = 0;
+            for (auto it = cbuf.begin(); it != cbuf.end(); ++it) acc += (unsigned char)*it;
+            for (auto it = cbuf.crbegin(); it != cbuf.crend(); ++it) acc ^= (unsigned char)*it;
+            d.num(acc);
+            std::string_view v = cbuf.view(3, 5);
+            d.raw(v.data(), v.size());
+            d.num((long long)cbuf.to_std_string().size());
+        }
         break;
     }
     case 39: {
